@@ -1061,7 +1061,7 @@ impl Scenario for C03 {
     fn runs(&self, tier: Tier) -> u64 {
         match tier {
             Tier::Quick => 40_000,
-            Tier::Thorough => 3_000_000,
+            Tier::Thorough => 1_200_000,
         }
     }
 
